@@ -50,7 +50,7 @@ def _result_productions(view: FuncInfo, sh: Shapes | None = None) -> list[Produc
     for n in all_nodes(view):
         if isinstance(n, ast.Return) and n.value is not None and not _is_empty_literal(n.value):
             got = productions(view, n.value)
-            if sh is not None and not any(p.elt is not None and any(t[0] == "K" for t in sh.tags(p.elt)) for p in got) and any(t[0] in ("KS", "K") for t in sh.tags(n.value)):
+            if sh is not None and not any(p.elt is not None and any(t[0] in ("K", "KS") for t in sh.tags(p.elt)) for p in got) and any(t[0] in ("KS", "K") for t in sh.tags(n.value)):
                 # keys are returned wholesale (`set(product(data.keys(), ..))`, `set(map(f, missing))`): one event, the return
                 src = _strip(n.value)
                 inner = None
@@ -62,7 +62,7 @@ def _result_productions(view: FuncInfo, sh: Shapes | None = None) -> list[Produc
                         got = [Production(q.elt, q.loops, conds(view, n) + q.conds, q.node) for q in sub]
                         out += got
                         continue
-                got = [Production(n.value, [], conds(view, n), n)]
+                got = [Production(n.value, [], conds(view, n), n, merged=n.value)]
             out += got
     return out
 
@@ -259,6 +259,8 @@ def _absent_guard(view: FuncInfo, sh: Shapes, keyp: list[Production], jmap: dict
                 worst = (True, False, "every pair of the layer must be realised: the requirement is judged per module pair instead of per layer")
             else:
                 odd = [c for c, _pol in cs if not _is_gating(view, sh, c)]
+                if p.merged is not None:
+                    return None, None, f"`{norm(p.elt, 50)}` is returned wholesale: the conditions under which its elements were collected could not be followed"
                 if odd:
                     return None, None, f"the condition `{norm(odd[-1], 60)}` under which `{norm(p.elt, 50)}` is reported missing was not understood"
                 worst = (True, False, f"`{norm(p.elt, 50)}` is reported missing without testing whether the layer has any realised pair")
@@ -326,9 +328,24 @@ def _ranges_over_both_ends(view: FuncInfo, sh: Shapes, y: ast.Name) -> bool:
 def _is_gating(view: FuncInfo, sh: Shapes, c: ast.expr) -> bool:
     """The condition cannot hide a decision about realised pairs: it only reads parameters that carry no dependency data,
     fields of the detector, or asks whether a dictionary of dependencies has *keys* (`if not group: continue`)."""
+    skip: set[int] = set()
     for x in ast.walk(c):
+        if id(x) in skip:
+            continue
         if isinstance(x, ast.Compare) and any(isinstance(o, (ast.In, ast.NotIn)) for o in x.ops):
-            return False
+            # `layer in <the mapping's own layers>` only reads the detector's configuration; membership in a collection
+            # built here may hide a decision on realised pairs
+            if len(x.ops) != 1:
+                return False
+            coll = _strip(single_value(view, x.comparators[0]))
+            root = coll
+            while isinstance(root, ast.Attribute):
+                root = root.value
+            if not (isinstance(coll, ast.Attribute) and isinstance(root, ast.Name) and root.id in ("self", "cls")):
+                return False
+            for y in ast.walk(x.comparators[0]):
+                skip.add(id(y))
+            continue
         if isinstance(x, ast.Call):
             f = x.func
             if isinstance(f, ast.Name) and f.id in ("isinstance", "len", "bool"):
@@ -347,6 +364,25 @@ def _is_gating(view: FuncInfo, sh: Shapes, c: ast.expr) -> bool:
             v = single_value(view, x)
             if v is not x and isinstance(v, ast.Attribute) and isinstance(v.value, (ast.Name, ast.Attribute)):
                 continue
+            if not ts and _is_loop_variable(view, x.id):
+                continue  # e.g. the layer key of `for layer, group in grouped.items()`
+            return False
+    return True
+
+
+def _is_loop_variable(view: FuncInfo, name: str) -> bool:
+    from core.loader import parent as _parent
+
+    from .c05_views import stores_of
+
+    sts = stores_of(view, name)
+    if not sts:
+        return False
+    for st in sts:
+        p = _parent(st)
+        while isinstance(p, (ast.Tuple, ast.List)):
+            p = _parent(p)
+        if not isinstance(p, (ast.For, ast.AsyncFor, ast.comprehension)):
             return False
     return True
 
